@@ -131,6 +131,9 @@ def reach(parser_cls, data, pos, how, rnd):
 def run(v):
     from rsocket.frame_parser import FrameParser
     thorough = common.tier() == 'thorough'
+    # "On message transports each message yields exactly the frame it contains": Transport.tla, every row on every message transport class
+    from . import transportmodel
+    transportmodel.check(v, 'C04')
     rnd = random.Random(common.seed())
     r = tlc.run('Parser', 'Parser.cfg', coverage=True, timeout=600, name='mcparser')
     if not r.finished:
